@@ -95,11 +95,11 @@ CLAIMED = {
          "place (C11_atomic, C11_mtime, C11_failed_unchanged); no staging file after a failure by exception (C11_no_staging*, with the negation witness "
          "for the pre-fix code, F2); a stale staging file disturbs neither the next write nor reads (C11_stale_staging*); all five stores and both "
          "helpers are instances (C11_stores, C11_staged_write*).", "4/C11"),
- "C12": ("proof", "Lean 4 proof, partial (newline/text layer, utf-8 / utf-16 / latin-1 codecs, JSON encoder/decoder round-trip, binary, touch, mounted, mtime proved; pickle and JSON floats hypotheses) + exact-prediction differential",
+ "C12": ("proof", "Lean 4 proof, partial (newline/text layer, utf-8 / utf-16 / latin-1 codecs, JSON encoder/decoder round-trip, binary, touch, mounted, mtime proved; pickle and float(repr(x)) == x hypotheses) + exact-prediction differential",
          "read(write(s)) = s for the regenerated newline mode for every string (C12_text_roundtrip; universal-newline characterisation and defect witness "
          "F1), strict utf-8 and utf-16 decoders invert the encoders on every string without lone surrogates (C12_utf8_roundtrip, C12_utf16_roundtrip, "
-         "C12_text_store_utf8: no codec assumption left for text stores), json.loads(json.dumps(v, indent=..)) = v for every int/str/bool/None/list/dict value, layout and "
-         "depth (C12_json_roundtrip, C12_json_store_utf8: no assumption left for JsonFileStore without floats), binary/touch/mounted round-trips, the pickle store under a round-trip "
+         "C12_text_store_utf8: no codec assumption left for text stores), json.loads(json.dumps(v, indent=..)) = v for every JSON value (floats as the text that denotes them), layout and "
+         "depth (C12_json_roundtrip, C12_json_store_utf8: no assumption left for JsonFileStore but float(repr(x)) == x), binary/touch/mounted round-trips, the pickle store under a round-trip "
          "hypothesis on the serialiser, get_modified_time None iff nothing stored and monotone.", "4/C12"),
  "C15": ("proof", "Lean 4 proof (well-bracketed engine event log => Legal notification sequence, exact totals) + recording observers under controlled schedules",
          "For every reachable returned engine state the notification sequence is Legal (C15_legal, C15_run), totals are positive / never exceeded / "
@@ -170,8 +170,8 @@ NOTES = {
          "all five stores and both helpers with the model, injects OSError/TypeError/KeyboardInterrupt at EVERY op index and os._exit (forked child, "
          "fresh interpreter) at every index, then compares target bytes, mtime change and directory listing. Trusted: the OS file API "
          "(os.replace atomic within a directory, getmtime), CPython's open()."),
- "C12": ("Theorems are about Model/TextCodec.lean + Model/Stores.lean with the regenerated newline/encoding arguments. PARTIAL: pickle (and json on floats) "
-         "are parameters with a round-trip hypothesis, validated only by the sampled runs; json.dump(indent=..)/json.load on None/bool/int/str/list/dict are "
+ "C12": ("Theorems are about Model/TextCodec.lean + Model/Stores.lean with the regenerated newline/encoding arguments. PARTIAL: pickle (and float(repr(x)) == x) "
+         "are parameters with a round-trip hypothesis, validated only by the sampled runs; json.dump(indent=..)/json.load on None/bool/int/float-as-text/str/list/dict are "
          "Model/Json.lean (encoder with the options T1 reads off the source, strict decoder; both compared with the real JsonFileStore on generated values and on "
          "valid and invalid texts) with the round-trip proved for every value, layout and depth; the utf-8, utf-16 and latin-1 codecs "
          "(strict encoders AND decoders, the decoders compared with the real TextFileStore.read on valid and invalid byte strings), the newline layer, "
